@@ -61,8 +61,8 @@ def r2_registration(ctx):
     if not regs:
         return
     rb, re_ = regs[0]
-    DOC = "try(Result::map_err(stdcode::deserialize(%s.data), closure[]))" % EL
-    COIN = "try(Option::ok_or(core::slice::<impl [T]>::get(%s.outputs, 0), StateError::MalformedTx{}))" % EL
+    DOC = "try(stdcode::deserialize(%s.data))" % EL
+    COIN = "try(core::slice::<impl [T]>::get(%s.outputs, 0))" % EL
     r.check(sig(re_[2][1]) == "Transaction::hash_nosigs(%s)" % EL, "register/key", "key = tx.hash_nosigs()", "key = %s" % sig(re_[2][1]), body.where(rb))
     r.check(sig(re_[2][2]) == DOC, "register/value", "value = the decoded StakeDoc", "value = %s" % sig(re_[2][2]), body.where(rb))
     # kind atom
@@ -185,7 +185,7 @@ def r4_expiry(ctx):
         r.check(not any(b in reach for b in body.return_blocks()), "every-path", "on every path", "a path skips unlock_old", body.where(bi))
         arg = q.novers(e[2][1])
         s = sig(arg)
-        r.check(s == "<melstructs::BlockHeight as std::ops::Div<__RhsT>>::div(new.height, STAKE_EPOCH).0" or s == "BlockHeight::epoch(new.height)",
+        r.check(s in ("<melstructs::BlockHeight as std::ops::Div<__RhsT>>::div(new.height, STAKE_EPOCH).0", "BlockHeight::epoch(new.height)", "Div(new.height.0, STAKE_EPOCH)"),
                 "arg", "epoch argument = new.height / STAKE_EPOCH", "epoch argument = %s" % s, body.where(bi))
         r.check(sig(q.novers(e[2][0])) == "new.stakes", "receiver", "on new.stakes", "on %s" % sig(e[2][0]), body.where(bi))
         r.check(bool(incs) and all(body.dominates(i, bi) and i != bi for i in incs), "after-increment", "evaluated after height += 1",
